@@ -3,6 +3,7 @@ package checks
 
 import (
 	_ "verifmc/checks/c02"
+	_ "verifmc/checks/c03"
 	_ "verifmc/checks/c06"
 	_ "verifmc/checks/c07"
 	_ "verifmc/checks/c08"
